@@ -260,6 +260,13 @@ class Model:
                     ops.append(('ack', c, ns, 0))
                 if len(pend) > 1:
                     ops.append(('ack', c, ns, -1))
+        if self.is_async:
+            # fault: one recipient's transport write raises while a
+            # broadcast is issued on its home host; the others, wherever
+            # they are, are served as on a single server
+            for (c, ns) in sorted(w.conn):
+                if ns == '/':
+                    ops.append(('emit-write-fails', c))
         for c in range(len(self.placement)):
             ops.append(('loss', c))
         for h in hosts:
@@ -343,6 +350,34 @@ class Model:
                                                    namespace=ns))
             self._results(w, op, ra, rb)
             w.member = {m for m in w.member if m[1] != ns}
+        elif kind == 'emit-write-fails':
+            _, c = op
+            h = self.placement[c]
+
+            def do(s):
+                wc = s.world_of(c)
+                eio = wc.sio.eio
+                real = eio.send_packet
+                bad_sid = wc.eio_sid(s.t[c])
+                state = {'n': 0}
+
+                async def send_packet(sid, pkt):
+                    if sid == bad_sid:
+                        state['n'] += 1
+                        raise OSError('scripted transport write fault')
+                    return await real(sid, pkt)
+                eio.send_packet = send_packet
+                try:
+                    r = s.api(h, 'emit', 'ev', {'fault': c}, namespace='/')
+                finally:
+                    eio.send_packet = real
+                for x in s.worlds:
+                    del x.task_errors[:]
+                    if x.loop is not None:
+                        x.loop.collect_errors()
+                return ('ok', state['n'])
+            ra, rb = self._both(w, do)
+            self._results(w, op, ra, rb)
         elif kind == 'emitcb':
             _, c, ns, h = op
             w.ncb += 1
